@@ -67,19 +67,35 @@ class World:
         acct = rb32.derive(m, acct_path)
         self.wallets["acct"] = PaperWallet.from_extended_key(acct.xpub(rb32.version_for("pub", tn, rnd.choice([44, 49, 84]))))
         self.refroot["acct"] = acct.neuter()
+        # twins of the private wallet: an incomplete cache key (missing chain code / key / network / object identity) in the
+        # library would make these wallets answer for each other
+        from btc_hd_wallet.bip32 import PrvKeyNode
+        self.wallets["prv_net"] = PaperWallet.from_bip39_seed_bytes(bip39_seed=self.seed, testnet=not tn)      # same keys, other network
+        self.refroot["prv_net"] = m
+        cc = gen.rbytes(rnd, 32)
+        self.wallets["prv_cc"] = PaperWallet(master=PrvKeyNode(key=rb32.ser256(m.k), chain_code=cc, testnet=tn), testnet=tn)   # same key, other chain code
+        self.refroot["prv_cc"] = rb32.XKey(m.k, None, cc)
+        k2 = rnd.randrange(1, secp.N)
+        self.wallets["prv_k"] = PaperWallet(master=PrvKeyNode(key=rb32.ser256(k2), chain_code=m.c, testnet=tn), testnet=tn)    # same chain code, other key
+        self.refroot["prv_k"] = rb32.XKey(k2, None, m.c)
+        self.wallets["pub_cc"] = PaperWallet.from_extended_key(self.refroot["prv_cc"].xpub(rb32.version_for("pub", tn, 44)))   # same pubkey, other chain code
+        self.refroot["pub_cc"] = self.refroot["prv_cc"].neuter()
+        self.net = {w: tn for w in self.wallets}
+        self.net["prv_net"] = not tn
+        self.wids = list(self.wallets)
         self.cache = {}
         self.cache_lock = threading.Lock()
-        self.base = [Handle(self.wallets[w].master, (), w) for w in ("prv", "pub", "acct")]
+        self.base = [Handle(self.wallets[w].master, (), w) for w in self.wids]
         self.root_xprv = m.xprv(rb32.version_for("prv", tn, 44))
         self.touched = {}       # id(node) -> Handle, for quiescent checks
         self.ckd_ok = {}        # id(node) -> successful ckd count (probe)
         self.count_lock = threading.Lock()
 
     def private(self, wid):
-        return wid == "prv"
+        return wid.startswith("prv")
 
     def mark(self, wid):
-        return "m" if wid == "prv" else "M"
+        return "m" if wid.startswith("prv") else "M"
 
     def ref(self, wid, path):
         key = (wid, tuple(path))
@@ -103,7 +119,7 @@ class World:
 
 
 def exp_address(world, wid, path, kind):
-    return raddr.KINDS[kind](world.ref(wid, path).sec(), world.testnet)
+    return raddr.KINDS[kind](world.ref(wid, path).sec(), world.net[wid])
 
 
 def exp_version_purpose(path):
@@ -127,7 +143,7 @@ class Runner:
     def ev(self, op, subject, args, ok, expected=None, observed=None, mech=None):
         self.seq += 1
         case = {"world": self.world.tag, "thread": self.tid, "seq": self.seq, "op": op, "wallet": subject.wid if subject else None,
-                "path": list(subject.path) if subject else None, "args": args, "seed": self.world.seed, "testnet": self.world.testnet}
+                "path": list(subject.path) if subject else None, "args": args, "seed": self.world.seed, "testnet": self.world.net[subject.wid] if subject else self.world.testnet}
         if len(self.log) < 40:
             self.log.append([self.tid, self.seq, op, rpath.fmt(subject.path) if subject else None, args])
         self.ctx.judge(self.prefix + ".event", ok, case, expected, observed, cls="%s|%s|%s" % (self.prefix, op, subject.wid if subject else "w"),
@@ -139,7 +155,7 @@ class Runner:
             exp = w.ref(wid, path)
         except (rb32.InvalidChild, rb32.HardenedFromPublic):
             return
-        bad = bridge.compare_node(node, exp, w.testnet, w.private(wid))
+        bad = bridge.compare_node(node, exp, w.net[wid], w.private(wid))
         if str(node) != rpath.fmt(path, w.mark(wid)):
             bad.append(("str", rpath.fmt(path, w.mark(wid)), str(node)))
         self.ev(op, subject, args, not bad, exp.fields(), bad, mech=op + ("." + bad[0][0] if bad else ""))
@@ -177,13 +193,13 @@ class Runner:
         self.handles.append(Handle(n, h.path + (i,), h.wid))
 
     def op_by_path(self):
-        wid = self.rnd.choice(["prv", "prv", "pub", "acct"])
+        wid = self.rnd.choice(["prv", "prv", "pub", "acct"] + self.world.wids)
         L = self.rnd.randrange(0, 6)
         path = [self.idx(wid) for _ in range(L)]
         s = rpath.fmt(path, self.rnd.choice(["m", "M"]))
         if self.rnd.random() < 0.3:
             s = s.replace("'", "h")
-        base = self.world.base[["prv", "pub", "acct"].index(wid)]
+        base = self.world.base[self.world.wids.index(wid)]
         try:
             n = self.world.wallets[wid].by_path(s)
         except Exception as e:  # noqa
@@ -241,7 +257,7 @@ class Runner:
         w = self.world.wallets[h.wid]
         ref = self.world.ref(h.wid, h.path)
         purpose = exp_version_purpose(h.path)
-        net = self.world.testnet
+        net = self.world.net[h.wid]
         try:
             got = w.node_extended_keys(h.node)
         except Exception as e:  # noqa
@@ -254,7 +270,7 @@ class Runner:
     def op_serialise(self):
         h = self.pick()
         ref = self.world.ref(h.wid, h.path)
-        tn = self.world.testnet
+        tn = self.world.net[h.wid]
         which = self.rnd.choice(["xpub", "xprv", "str", "fingerprint", "parent_fingerprint"])
         try:
             if which == "xpub":
@@ -305,13 +321,14 @@ class Runner:
         ent[3] = nxt
         want = (rpath.fmt(h.path + (nxt,), w.mark(h.wid)), exp_address(w, h.wid, h.path + (nxt,), kind))
         self.ctx.judge("generator", tuple(got) == want, {"world": w.tag, "path": list(h.path), "step": step, "expect_index": nxt,
-                                                         "kind": kind, "seed": w.seed, "testnet": w.testnet, "wallet": h.wid},
+                                                         "kind": kind, "seed": w.seed, "testnet": w.net[h.wid], "wallet": h.wid},
                        want, got, cls="gen|%s|%s" % (step.split(":")[0], h.wid), mech="C13.generator." + step.split(":")[0])
 
     def op_bip85(self):
         w = self.world
-        b = w.wallets["prv"].bip85
-        m = w.refroot["prv"]
+        pw = self.rnd.choice([x for x in w.wids if x.startswith("prv")])
+        b = w.wallets[pw].bip85
+        m = w.refroot[pw]
         which = self.rnd.choice(["wif", "xprv", "hex", "pwd", "mnemonic"])
         i = self.rnd.choice([0, 1, 2, 7])
         try:
@@ -336,13 +353,14 @@ class Runner:
 
     def op_paper(self):
         w = self.world
-        wal = w.wallets["prv"]
-        m = w.refroot["prv"]
+        pw = self.rnd.choice([x for x in w.wids if x.startswith("prv")])
+        wal = w.wallets[pw]
+        m = w.refroot[pw]
         which = self.rnd.choice(["generate", "generate", "wasabi", "json"])
         try:
             if which == "wasabi":
                 got = json.loads(wal.wasabi_json())
-                want = rpaper.wasabi(m, w.testnet)
+                want = rpaper.wasabi(m, w.net[pw])
                 ok = all(got.get(k) == v for k, v in want.items())
                 args = {}
             else:
@@ -353,7 +371,7 @@ class Runner:
                 data = wal.generate(account=acct, interval=(s, s + n))
                 if which == "json":
                     data = json.loads(wal.json(data=data))
-                want = rpaper.generate(m, w.testnet, acct, s, s + n, None, None, with_bip85=True)
+                want = rpaper.generate(m, w.net[pw], acct, s, s + n, None, None, with_bip85=True)
                 d = rpaper.diff(want, data)
                 ok, got = not d, d
         except rb32.InvalidChild:
@@ -422,10 +440,16 @@ def quiescent_checks(ctx, world, prefix):
         got = e
     ctx.judge("root_unchanged", got == world.root_xprv, {"world": world.tag, "seed": world.seed, "mode": prefix}, world.root_xprv, got,
               cls="root|" + prefix, mech="C13.root_changed")
-    for wid in ("pub", "acct"):
+    for wid in world.wids:
+        if wid == "prv":
+            continue
         ref = world.refroot[wid]
         node = world.wallets[wid].master
-        ok = bytes(node.key) == ref.sec() and bytes(node.chain_code) == ref.c
+        if world.private(wid):
+            ok = int.from_bytes(bytes(node.private_key.k), "big") == ref.k and bytes(node.chain_code) == ref.c and \
+                bool(node.testnet) == world.net[wid]
+        else:
+            ok = bytes(node.key) == ref.sec() and bytes(node.chain_code) == ref.c
         ctx.judge("root_unchanged", ok, {"world": world.tag, "wallet": wid, "mode": prefix}, ref.fields(), bridge.node_obs(node), cls="root|" + wid,
                   mech="C13.root_changed")
     # children conservation: every successful ckd appended exactly one child
